@@ -2,6 +2,7 @@
   Props/C03.lean — operators never coerce operands between types.
 -/
 import RevalModel.Lemmas.NoneType
+import RevalModel.Lemmas.KeepsType
 
 namespace Reval.C03
 
@@ -55,7 +56,24 @@ theorem logic_right_requires_bool (env : Env) (rp : List Nat) (v : Value) (st : 
     eval env rp (.or (.lit (.bool false)) (.lit v)) st = (.err .invalidType, st, []) := by
   cases v <;> simp_all [eval, Value.ty]
 
+/-- only the explicit casts / constructors / accessors change a value's type: every other unary operator returns a Bool,
+    None or a value of its operand's type; every binary operator a Bool, None or a value of its left operand's type —
+    except `DateTime − DateTime`, which is a Duration.  (The library oracle is assumed to answer with the type of the
+    primitive it answers for: a Decimal for a Decimal operation, a String for a case mapping.) -/
+theorem only_casts_change_type (o : Oracle) (ho : o.Typed) :
+    (∀ op v r, op.keepsType = true → applyUn o op v = .ok r → r.ty = .bool ∨ r.ty = .none ∨ r.ty = v.ty) ∧
+    (∀ op a b r, applyBin o op a b = .ok r →
+      r.ty = .bool ∨ r.ty = .none ∨ r.ty = a.ty ∨
+      (op = .sub ∧ a.ty = .dateTime ∧ b.ty = .dateTime ∧ r.ty = .duration)) :=
+  ⟨fun _ _ _ hk h => applyUn_keeps_type ho hk h, fun _ _ _ _ h => applyBin_keeps_type ho h⟩
+
+/-- … and the ones that do change it are exactly the casts, the two constructors and the calendar accessors -/
+theorem type_changing_builtins :
+    UnOp.all.filter (fun op => !op.keepsType) =
+      [.toInt, .toFloat, .toDec, .dateTime, .duration, .year, .month, .week, .day, .hour, .minute, .second] := by decide
+
 /-! non-vacuity: values that coincide after coercion -/
+example : Oracle.empty.Typed := by intro op args v h; simp [Oracle.empty] at h
 example : applyBin Oracle.empty .add (.int 1) (.float ⟨0x3ff0000000000000⟩) = .err .invalidType := by decide
 example : applyBin Oracle.empty .gt (.dec ⟨false, 1, 0⟩) (.int 1) = .err .invalidType := by decide
 example : (Ty.int, Ty.float) ∉ BinOp.add.sig := by decide
